@@ -1852,12 +1852,20 @@ class ForAll(QuantifiedConditional):
     def condition_unique_variable_ids(self) -> List[int]:
         # a predicate / symbolic function call is computed from its arguments: carrying its result to the next value of
         # the quantified expression would answer that value with the result of the previous one
+        # a plain variable that is quantified inside the condition (exists / for_all below this one) is no variable the
+        # condition is judged per value of: "for all a there is a b" must not become "there is a b for all a"
+        quantified_below = {
+            node.variable._id_
+            for node in self.condition._all_nodes_
+            if isinstance(node, QuantifiedConditional)
+            and isinstance(node.variable, Variable)
+        }
         return [
             v.id_
             for v in self.condition._unique_variables_.difference(
                 self.left._unique_variables_
             )
-            if not v.value._predicate_type_
+            if not v.value._predicate_type_ and v.id_ not in quantified_below
         ]
 
     def _evaluate__(
